@@ -140,8 +140,10 @@ CanAct == Quiet /\ Len(hist) < MaxHist
 UserWrite(n) ==
     /\ CanAct /\ n \in UserFiles
     /\ clock' = clock + 1
-    /\ fs' = [fs EXCEPT ![n] = FileRec(n, "user", clock + 1, "user")]
-    /\ hist' = Append(hist, [a |-> "write", n |-> n, v |-> clock + 1])
+    \* the content version is the position in the history (independent of how
+    \* many files redo wrote in between); the stamp comes from the clock
+    /\ fs' = [fs EXCEPT ![n] = [FileRec(n, "user", Len(hist) + 2, "user") EXCEPT !.ver = clock + 1]]
+    /\ hist' = Append(hist, [a |-> "write", n |-> n, v |-> Len(hist) + 2])
     /\ UNCHANGED <<tmp, w, runid, locks, procs, cmd, ran, ncmds, pool>>
 
 UserRemove(n) ==
@@ -251,7 +253,8 @@ Declare(p) ==
              /\ UNCHANGED <<fs, tmp, clock, runid, locks, cmd, hist, ran, ncmds, pool>>
 
 JobRec(t, k, sf, before, pid) ==
-    [t |-> t, k |-> k, sf |-> sf, before |-> before, pid |-> pid, st |-> "run", rv |-> 0]
+    [t |-> t, k |-> k, sf |-> sf, before |-> before, pid |-> pid, st |-> "run", rv |-> 0,
+     std |-> FALSE, file |-> FALSE, val |-> NoVal]
 
 \* The decision taken under the lock (or with a forced lock): builder.rs start()
 \* `adv` is the update of the scheduling fields of p (index or queue).
@@ -263,9 +266,13 @@ Decide(p, t, w1, adv) ==
         sb == IF P.forced THEN [v |-> "dirty", need |-> <<>>, w |-> w1, gen |-> TRUE]
               ELSE ShouldBuild(w1, e, t)
         lockIt == IF P.unl THEN locks ELSE [locks EXCEPT ![t] = p]
-        Imm(w2, rv) ==    \* job future already complete; Lock dropped at once
+        Imm(w2, rv) ==    \* job future already complete; Lock dropped at once; a failure
+                          \* becomes known when the future is polled (ImmDone)
             /\ w' = w2
-            /\ procs' = [procs EXCEPT ![p] = [adv EXCEPT !.err = IF rv # 0 THEN 1 ELSE adv.err]]
+            /\ procs' = [procs EXCEPT ![p] =
+                            IF rv = 0 THEN adv
+                            ELSE [adv EXCEPT !.jobs = @ \cup {[JobRec(t, "imm", sf, before, NoPid)
+                                                               EXCEPT !.st = "exited", !.rv = rv]}]]
             /\ UNCHANGED <<fs, tmp, clock, runid, locks, cmd, hist, ran, ncmds, pool>>
     IN
     IF sb.v = "failed" THEN ErrorExit(p, 32, sb.w)
@@ -326,8 +333,8 @@ Consider(p) ==
                       /\ UNCHANGED <<fs, tmp, clock, runid, locks, cmd, hist, ran, ncmds, pool>>
                    ELSE Decide(p, t, w1, nxt)
 
-AllExited(P) == \A j \in P.jobs : j.st = "fs" \/ (Alive(j.pid) /\ procs[j.pid].pc = "done")
-NoneRunning(P) == \A j \in P.jobs : ~(j.st = "run" /\ Alive(j.pid) /\ procs[j.pid].pc # "done")
+\* JobServer::is_running: children not yet reaped
+NoneRunning(P) == \A j \in P.jobs : j.st # "run"
 
 \* pass 2: targets that were locked by someone else in pass 1
 Pass2(p) ==
@@ -346,27 +353,39 @@ Pass2(p) ==
              /\ UNCHANGED <<fs, tmp, clock, w, runid, locks, cmd, hist, ran, ncmds, pool>>
           ELSE Decide(p, t, w, nxt)
 
+\* block_on (jobserver.rs:414-460): the child's exit is seen, it is reaped and
+\* its token re-created.  The completion handler (RecFs, RecCommit) runs later,
+\* when the job future is polled -- wait_for may let the foreground go first.
+Reap(p, j) ==
+    LET P == procs[p]
+        c == procs[j.pid]
+    IN
+    /\ P.kind = "redo" /\ j \in P.jobs /\ j.st = "run"
+    /\ Alive(j.pid) /\ c.pc = "done"
+    /\ procs' = Kill([procs EXCEPT ![p].jobs = (@ \ {j}) \cup
+                          {[j EXCEPT !.st = "exited", !.rv = c.rc, !.std = c.std, !.file = c.file,
+                                     !.val = c.val]},
+                                   ![p].tok = 1],
+                     {j.pid})
+    /\ pool' = IF P.tok = 1 THEN pool + 1 ELSE pool
+    /\ UNCHANGED <<fs, tmp, clock, w, runid, locks, cmd, hist, ran, ncmds>>
+
 \* builder.rs:499-584: the file operation of record_new_state
 RecFs(p, j) ==
     LET P == procs[p]
-        c == procs[j.pid]
-        out == RecOutcome(j.before, CurStamp(fs, j.t), c.std, c.file, c.rc)
+        out == RecOutcome(j.before, CurStamp(fs, j.t), j.std, j.file, j.rv)
     IN
-    /\ P.kind = "redo" /\ j \in P.jobs /\ j.k = "self" /\ j.st = "run"
-    /\ Alive(j.pid) /\ c.pc = "done"
+    /\ P.kind = "redo" /\ j \in P.jobs /\ j.k = "self" /\ j.st = "exited"
     /\ IF out.op = "rename" THEN
-          /\ fs' = [fs EXCEPT ![j.t] = [ex |-> TRUE, val |-> c.val, ver |-> clock + 1, own |-> "redo"]]
+          /\ fs' = [fs EXCEPT ![j.t] = [ex |-> TRUE, val |-> j.val, ver |-> clock + 1, own |-> "redo"]]
           /\ clock' = clock + 1
        ELSE IF out.op = "unlink" THEN
           /\ fs' = [fs EXCEPT ![j.t] = Absent]
           /\ UNCHANGED clock
        ELSE UNCHANGED <<fs, clock>>
     /\ tmp' = tmp \ {j.t}
-    /\ procs' = Kill([procs EXCEPT ![p].jobs = (@ \ {j}) \cup {[j EXCEPT !.st = "fs", !.rv = out.rv]},
-                                   ![p].tok = 1],
-                     {j.pid})
-    /\ pool' = IF P.tok = 1 THEN pool + 1 ELSE pool
-    /\ UNCHANGED <<w, runid, locks, cmd, hist, ran, ncmds>>
+    /\ procs' = [procs EXCEPT ![p].jobs = (@ \ {j}) \cup {[j EXCEPT !.st = "fs", !.rv = out.rv]}]
+    /\ UNCHANGED <<w, runid, locks, cmd, hist, ran, ncmds, pool>>
 
 \* builder.rs:585-636 + commit + Lock drop
 RecCommit(p, j) ==
@@ -381,13 +400,11 @@ RecCommit(p, j) ==
 \* a redo-unlocked job ended: nothing to record, the lock is dropped
 UnlDone(p, j) ==
     LET P == procs[p] IN
-    /\ P.kind = "redo" /\ j \in P.jobs /\ j.k = "unl"
-    /\ Alive(j.pid) /\ procs[j.pid].pc = "done"
-    /\ locks' = IF locks[j.t] = p THEN [locks EXCEPT ![j.t] = NoPid] ELSE locks
-    /\ procs' = Kill([procs EXCEPT ![p].jobs = @ \ {j}, ![p].tok = 1,
-                                   ![p].err = IF procs[j.pid].rc # 0 THEN 1 ELSE @], {j.pid})
-    /\ pool' = IF P.tok = 1 THEN pool + 1 ELSE pool
-    /\ UNCHANGED <<fs, tmp, clock, w, runid, cmd, hist, ran, ncmds>>
+    /\ P.kind = "redo" /\ j \in P.jobs /\ j.k \in {"unl", "imm"} /\ j.st = "exited"
+    /\ locks' = IF j.k = "unl" /\ locks[j.t] = p THEN [locks EXCEPT ![j.t] = NoPid] ELSE locks
+    /\ procs' = [procs EXCEPT ![p].jobs = @ \ {j},
+                              ![p].err = IF j.rv # 0 THEN 1 ELSE @]
+    /\ UNCHANGED <<fs, tmp, clock, w, runid, cmd, hist, ran, ncmds, pool>>
 
 \* ensure_token: take a free token from the pool when about to consider a target
 Acquire(p) ==
@@ -530,7 +547,7 @@ OrphanReap(s) ==
 ProcStep ==
     \E p \in DOMAIN procs :
         \/ Declare(p) \/ Consider(p) \/ Pass2(p) \/ Finish(p) \/ Acquire(p) \/ Release(p)
-        \/ \E j \in procs[p].jobs : RecFs(p, j) \/ RecCommit(p, j) \/ UnlDone(p, j)
+        \/ \E j \in procs[p].jobs : Reap(p, j) \/ RecFs(p, j) \/ RecCommit(p, j) \/ UnlDone(p, j)
         \/ ScriptStep(p) \/ ScriptResume(p) \/ UnlockedStep(p) \/ OrphanReap(p)
 
 UserStep ==
